@@ -10,7 +10,11 @@ type JSeg struct {
 	DeclLen int
 	NoLen   bool
 	Entropy []byte // raw bytes following the segment (after SOS)
+	Fill    int    // fill bytes (0xFF) ahead of the marker: ITU-T T.81 B.1.1.2 allows any number
 }
+
+// Fill is a run of n fill bytes with no marker of its own: they precede whatever marker comes next.
+func Fill(n int) JSeg { return JSeg{Fill: n, Marker: 0, DeclLen: -1} }
 
 func SOI() JSeg { return JSeg{Marker: 0xD8, NoLen: true, DeclLen: -1} }
 func EOI() JSeg { return JSeg{Marker: 0xD9, NoLen: true, DeclLen: -1} }
@@ -113,6 +117,12 @@ func BuildJPEG(segs []JSeg) ([]byte, Layout) {
 	var b bytes.Buffer
 	var l Layout
 	for _, s := range segs {
+		for i := 0; i < s.Fill; i++ {
+			b.WriteByte(0xFF)
+		}
+		if s.Marker == 0 { // fill bytes only
+			continue
+		}
 		b.WriteByte(0xFF)
 		b.WriteByte(s.Marker)
 		if !s.NoLen {
